@@ -76,8 +76,8 @@ CLAIMED = {
              '(WalkS2 with VTCR.SL0/T0SZ and VTTBR, S2AttrDecode, HAP permissions, CombineS1S2Desc, stage-2 translation of the stage-1 '
              'walk\'s own descriptor addresses with HCR.PTW) and exercised with random stage-2 tables under HCR.VM = 1 (stage 1 off with '
              'HCR.DC both ways, or short-descriptor): successful two-stage translations are compared exactly (address, combined attributes), '
-             'stage-2 faults only as fault / no fault (they reach the emulator\'s unimplemented Hyp-syndrome hooks); Hyp-mode stage 1 is '
-             'reported as unmodelled and not claimed; with SCTLR.TRE = 0 the emulator reaches its documented mock hook (outcome notimpl); memory '
+             'stage-2 faults only as fault / no fault (they reach the emulator\'s unimplemented Hyp-syndrome hooks); the Hyp-mode (PL2) '
+             'stage-1 regime (HTTBR / HTCR / HMAIR / HSCTLR) is specified and exercised the same way; with SCTLR.TRE = 0 the emulator reaches its documented mock hook (outcome notimpl); memory '
              'attributes other than the memory type used for alignment faults are not compared.',
         technique='TLC model checking of the VMSA spec + TLC trace validation of translate_address() and loads/stores',
         ref='DESIGN.md §4 C15'),
